@@ -21,6 +21,7 @@ NOT_PROVED = ["CPython's int-set iteration order being a function of the inserti
               'module state, are runtime facts outside any model: they are what the two streams probe']
 ASSUMPTIONS = ['the header comment (version, argv echo) is excluded from the comparison']
 LEVEL_NOTE = 'partial'
+THOROUGH_SCALE = 3
 
 
 def plan(tier):
